@@ -176,3 +176,13 @@ Proof.
   intros Hin D ->. destruct (queue_full_atomic _ _ _ _ _ _ _ Hin) as [_ R].
   unfold own_refused in R. rewrite D in R. discriminate.
 Qed.
+
+(* as a step clause *)
+Theorem closing_accepted_along cap ops : holds_along closing_accepted_ok cap ops.
+Proof.
+  apply holds_along_intro. intros st o W O. destruct o; try (destruct (step st _) as [r s']; destruct r; reflexivity).
+  cbn [step]. destruct (publish st c m got) as [r st'] eqn:E. intros _. unfold closing_accepted_ok.
+  destruct r; try reflexivity.
+  destruct (publish_refused st c m got W (own_ownok st O)) as [R _]; [rewrite E; reflexivity|].
+  unfold own_refused in R. apply andb_true_iff in R as [R _]. exact R.
+Qed.
